@@ -11,7 +11,7 @@
       verif:cancel) or asynchronous (oracle [ko = Some k]: the context is done
       from check number k on).
    2. peach under cancellation: model/C20_Peach.v (Acquire fails on a done
-      context; the code ignores the error).
+      context; the dispatcher then stops dispatching).
    3. the case record / oracle / judge for the observations of the Go runner. *)
 From verif Require Import lib.Base model.C20_Peach.
 Open Scope nat_scope.
